@@ -84,12 +84,23 @@ func (n *normalizer) inlinable(fd *ast.FuncDecl, fn *types.Func) bool {
 	if sig.Variadic() || sig.TypeParams() != nil || sig.RecvTypeParams() != nil {
 		return false
 	}
-	// no named results (bare returns), no defer/recover/labels/goto, no recursion
+	// named results must all be named (handled as locals); no defer/recover/labels/goto, no recursion
 	if fd.Type.Results != nil {
+		named, unnamed := 0, 0
 		for _, f := range fd.Type.Results.List {
 			if len(f.Names) > 0 {
-				return false
+				named += len(f.Names)
+				for _, nm := range f.Names {
+					if nm.Name == "_" {
+						return false
+					}
+				}
+			} else {
+				unnamed++
 			}
+		}
+		if named > 0 && unnamed > 0 {
+			return false
 		}
 	}
 	for _, f := range fd.Type.Params.List {
@@ -178,6 +189,7 @@ func (n *normalizer) bodyText(fd *ast.FuncDecl, file *ast.File, prefix string, s
 	}
 	add(fd.Recv)
 	add(fd.Type.Params)
+	add(fd.Type.Results)
 	base := n.off(fd.Body.Lbrace) + 1
 	end := n.off(fd.Body.Rbrace)
 	var edits []textEdit
@@ -493,8 +505,25 @@ func (n *normalizer) inlineCall(call *ast.CallExpr, file *ast.File, at token.Pos
 	if len(missing) > 0 {
 		return "", nil, false
 	}
+	var namedRes []string
+	if fd.Type.Results != nil {
+		ri := 0
+		for _, f := range fd.Type.Results.List {
+			for _, nm := range f.Names {
+				namedRes = append(namedRes, prefix+nm.Name)
+				fmt.Fprintf(&sb, "var %s%s %s\n_ = %s%s\n", prefix, nm.Name, types.TypeString(sig.Results().At(ri).Type(), q), prefix, nm.Name)
+				ri++
+			}
+		}
+	}
 	retStmt := func(results string, nr int) string {
-		if nr == 0 || len(temps) == 0 {
+		if len(temps) == 0 {
+			return "break " + label
+		}
+		if nr == 0 {
+			if len(namedRes) == len(temps) {
+				return strings.Join(temps, ", ") + " = " + strings.Join(namedRes, ", ") + "; break " + label
+			}
 			return "break " + label
 		}
 		return strings.Join(temps, ", ") + " = " + results
